@@ -794,6 +794,35 @@ func ruleTimingValueIndependent(r *Run, rule string) {
 						case *ast.CallExpr:
 							if fn, ok := typeutil.Callee(info, x).(*types.Func); ok && fn.Name() == "registerRead" {
 								found = "a register's content"
+							} else if ok && fn.Pkg() != nil && fn.Pkg().Path() == modPath+"/risc" {
+								// the answer of a risc function that looks at the CONTENT of a register or of a memory byte
+								if cfd, cpk := w.FuncDecl(fn); cfd != nil && cfd.Body != nil {
+									ast.Inspect(cfd.Body, func(q ast.Node) bool {
+										ix, ok := q.(*ast.IndexExpr)
+										if !ok {
+											return true
+										}
+										// a read, not the target of an assignment: appears inside an expression compared or returned
+										switch ctxFieldWritten(cpk.TypesInfo, ix.X) {
+										case "Registers", "Memory":
+											isTarget := false
+											ast.Inspect(cfd.Body, func(z ast.Node) bool {
+												if as, ok := z.(*ast.AssignStmt); ok {
+													for _, l := range as.Lhs {
+														if ast.Unparen(l) == ast.Expr(ix) {
+															isTarget = true
+														}
+													}
+												}
+												return true
+											})
+											if !isTarget {
+												found = "the answer of " + fn.Name() + ", which reads register or memory content"
+											}
+										}
+										return true
+									})
+								}
 							}
 						}
 						return true
